@@ -242,9 +242,13 @@ Fixpoint read_ty (m : mode) (t : ty) (r : rst) {struct t} : res (val * rst) :=
       rwith_buffer m r (fun r =>
         let! (len, r) := read_len_ext m r ext lo hi in
         let! _ := alloc len in
-        if LOOP_LIMIT <? len then Panic P_UNBOUNDED else
         let width := match c with Numeric => 4 | _ => 7 end in
-        let! (codes, r) := read_chars (N.to_nat len) width r [] in
+        (* every character consumes [width] bits, so a count not covered by the input fails with
+           EndOfStream after at most remaining/width + 1 iterations *)
+        let rem := s_len (r_src r) - s_pos (r_src r) in
+        let iters := N.min len (rem / width + 1) in
+        let! (codes, r) := read_chars (N.to_nat iters) width r [] in
+        if iters <? len then Panic P_OTHER else
         let codes := match c with
                      | Numeric => map (fun x => if x =? 0 then 32 else 32 + 15 + x) codes
                      | _ => codes end in
@@ -266,13 +270,21 @@ Fixpoint read_ty (m : mode) (t : ty) (r : rst) {struct t} : res (val * rst) :=
         let! (len, r) := read_len_ext m r ext lo hi in
         if 0 <? len then
           rscope_stashed r (fun r =>
-            let! _ := alloc len in
-            if LOOP_LIMIT <? len then Panic P_UNBOUNDED else
+            (* Vec::with_capacity(len): the element type of the harness is a few dozen bytes wide *)
+            let! _ := alloc (len * 64) in
+            (* an element that succeeds without consuming a bit repeats forever: a count beyond the
+               input then means unbounded work; otherwise the walk ends in an error within remaining + 1 steps *)
+            let rem := s_len (r_src r) - s_pos (r_src r) in
+            let big := LOOP_LIMIT <? len in
+            let iters := if big then N.min len (rem + 2) else len in
             (fix elems (n : nat) (r : rst) (acc : list val) : res (val * rst) :=
                match n with
-               | O => Ok (VList (frev acc), r)
-               | S n' => let! (x, r) := read_ty m e r in elems n' r (x :: acc)
-               end) (N.to_nat len) r [])
+               | O => if big then Panic P_UNBOUNDED else Ok (VList (frev acc), r)
+               | S n' =>
+                   let! (x, r') := read_ty m e r in
+                   if big && (s_pos (r_src r') =? s_pos (r_src r)) then Panic P_UNBOUNDED
+                   else elems n' r' (x :: acc)
+               end) (N.to_nat iters) r [])
         else Ok (VList [], r))
   | TSeq fs std_opt field_count ext_after =>
       (* `let _ = self.read_bit_field_entry(false);` -- the result, even an error, is dropped *)
@@ -309,7 +321,7 @@ Fixpoint read_ty (m : mode) (t : ty) (r : rst) {struct t} : res (val * rst) :=
                  match ob with
                  | None => Panic P_UNWRAP
                  | Some true =>
-                     let! (x, r) := rscope_stashed r (fun r => read_ty m ft r) in
+                     let! (x, r) := rwith_buffer m r (fun r => rscope_stashed r (fun r => read_ty m ft r)) in
                      fields fs' r (Some x :: acc)
                  | Some false => fields fs' r (Some d :: acc)
                  end
@@ -327,6 +339,8 @@ Fixpoint read_ty (m : mode) (t : ty) (r : rst) {struct t} : res (val * rst) :=
       rscope_stashed r (fun r =>
         let! (index, r) := r_get r (r_enumeration_index m std ext) in
         let content (r : rst) : res (option val * rst) :=
+          (* an index beyond the alternatives: read_content answers None (no unary conversion of a huge index) *)
+          if N.of_nat (length alts) <=? index then Ok (None, r) else
           (fix pick (alts : list ty) (i : nat) : res (option val * rst) :=
              match alts, i with
              | a :: _, O => let! (x, r) := read_ty m a r in Ok (Some (VChoice index x), r)
